@@ -3,11 +3,24 @@ from .. import harness, monitors, games, analysis
 from ..oracle import OracleInconclusive
 
 
+SLOW_FIRST = ("G-VSLOW", "G-VSLOWR", "G-SLOW", "G-AUXFAST", "G-RNEAR", "G-NEARC")
+
+
 def plan_classes(tier, table, per_q=50, per_t=200, mult_t=12):
     b = []
     for cls, k in table:
         total = k if tier == "quick" else k * mult_t
-        b += harness.split(cls, total, per_q if tier == "quick" else per_t)
+        # classes whose cases cost seconds each are split into small batches and scheduled first (no long tail at the end)
+        per = (per_q if tier == "quick" else per_t)
+        if cls in ("G-VSLOW", "G-VSLOWR"):
+            per = 1
+        elif cls in SLOW_FIRST:
+            per = max(10, per // 3)
+        b += harness.split(cls, total, per)
+    b.sort(key=lambda x: 0 if x["cls"] in ("G-VSLOW", "G-VSLOWR") else (1 if x["cls"] in SLOW_FIRST else 2))
+    for x in b:
+        if x["cls"] in ("G-VSLOW", "G-VSLOWR"):
+            x["env"] = {"VERIF_LOGLEVEL": "", "PYTHONOPTIMIZE": ""}        # never combine the slowest cases with the DEBUG log level
     return b
 
 
@@ -22,6 +35,8 @@ def iter_games(batch, pid, emit_start):
 
 def limit_for(an):
     n, m = an.n, games.n_transitions(an.gd)
+    if n <= 2 and not an.stopping:
+        return 3000 * (n + m) + 2000          # one- and two-state games outside the stopping class: the overrun is cheap
     if an.stopping and an.finals_absorbing:
         try:
             tmax = an.tmax_solve
